@@ -1450,7 +1450,7 @@ func realCase(e *lp.Exec, c cfg) {
 	if len(order) != 1 || string(all) != string(sent[:len(all)]) {
 		e.Oracle("c02-delivery", "%s: delivered bytes are not a prefix of the bytes sent (%d conns, %d bytes)", tag, len(order), len(all))
 	}
-	if len(all) != len(sent) && !c.isAsync() { // asynchronous configurations: known finding C02-async-halfclose
+	if len(all) != len(sent) {
 		e.Oracle("c02-stranded", "closed on peer half-close with %d unread in the kernel queue mode=%s async=%v typ=%s cap=%d rbs=%d (real kernel)", len(sent)-len(all), c.mode, c.isAsync(), c.typ, c.cap, c.rbs)
 	}
 }
